@@ -150,6 +150,8 @@ def run_case(ctx, case):
         enc = EccDecryptor(sel, priv) if form == "decryptor" else EccEncryptor(sel, priv.public_key)
         other = EccEncryptor((sel + 1) % 4, FX.priv_key(7).public_key)
         points = set()
+        live_dec = EccDecryptor(sel, priv)     # one decryptor object for all blocks of the case
+        blocks_seen = []
         for draw in range(2):
             with DetRandom("c09-%r-%d" % (case, draw)) as rnd:
                 blk = InitEccAuthBlock(sel).pack(key, [other, enc])
@@ -160,9 +162,17 @@ def run_case(ctx, case):
                 return o
             points.add(blk[2:66])
             # the library's own decryptor agrees
-            ab, sk = InitEccAuthBlock.unpack(blk, [EccDecryptor(sel, priv)])
+            ab, sk = InitEccAuthBlock.unpack(blk, [live_dec])
             if sk != key or ab.key_selector != sel:
                 return o.viol("block|library-unwrap", "library decryptor returns %r" % (sk,))
+            blocks_seen.append(blk)
+        # the same decryptor object, first block again and a block for another session key in between
+        other_key = key_of(ctx, (ki + 1) % 5)
+        with DetRandom("c09-%r-other" % (case,)):
+            blk_o = InitEccAuthBlock(sel).pack(other_key, [enc])
+        for b, k_exp in ((blk_o, other_key), (blocks_seen[0], key), (blk_o, other_key)):
+            if InitEccAuthBlock.unpack(b, [live_dec])[1] != k_exp:
+                return o.viol("block|decryptor-history", "one decryptor object unwrapping several blocks in turn returns a wrong key")
         if len(points) != 2:
             o.viol("block|ephemeral-reused", "two packs used the same ephemeral point")
         return o
